@@ -16,7 +16,9 @@ type ifGen struct {
 	depth int
 }
 
-var ifConds = []string{"true", "false", "debugT", "debugF", "!debugF", "!debugT", "1 < 0", "2 > 1", "x > 0", "x == 3", "flag", "debugT && debugF", "debugT || flag", "\"a\" == \"a\""}
+var ifConds = []string{"true", "false", "debugT", "debugF", "!debugF", "!debugT", "1 < 0", "2 > 1", "x > 0", "x == 3", "flag", "debugT && debugF", "debugT || flag", "\"a\" == \"a\"",
+	// constants of a defined boolean type, derived constants, parenthesised and converted forms
+	"onT", "offT", "!offT", "!onT", "derivedT", "derivedF", "(false)", "!(true)", "bool(offT)", "onT && !offT", "bool(offT) || flag", "len(\"ab\") == 2"}
 
 func (g *ifGen) indent(d int) string { return strings.Repeat("\t", d) }
 
@@ -72,7 +74,7 @@ func (g *ifGen) ifStmt(d, budget int) {
 // genIfFile returns one generated file.
 func genIfFile(r *rand.Rand, depth int) string {
 	g := &ifGen{r: r}
-	g.sb.WriteString("package p\n\nconst debugT = true\nconst debugF = false\n\nvar flag bool\n\nfunc probe(int) int { return 0 }\n\n")
+	g.sb.WriteString("package p\n\nconst debugT = true\nconst debugF = false\n\ntype flagT bool\n\nconst onT flagT = true\nconst offT flagT = false\nconst derivedT = !offT\nconst derivedF = onT && offT\n\nvar flag bool\n\nfunc probe(int) int { return 0 }\n\n")
 	nf := 1 + r.Intn(3)
 	for f := 0; f < nf; f++ {
 		if r.Intn(3) == 0 {
